@@ -13,15 +13,29 @@ namespace DoitModel.Run
 
 /-! ### the dependency graph as one run determined it -/
 
-/-- what the calc_deps of `t` that finished in `tr` delivered as task_dep / file_dep owners -/
+/-- the calc_deps of `t` as this run determined them: listed, or delivered by a calc_dep that is executed / up-to-date
+    (`calcRes`) or that was STARTED and then reported failed (`calcResFail`: `_process_calc_dep_results` reads
+    `task.values` whatever the `run_status`; M1 `deliverF`) — `resAt` of `Model/RunMon.lean` -/
+def calcsRun (inp : RunInput) (nTasks : Nat) (tr : List Ev) (t : Name) : List Name :=
+  calcsAtQ inp tr nTasks (inp.calcDep t)
+
+/-- what the calc_deps of `t` delivered in `tr` as task_dep / file_dep owners (good and failed-after-start ones) -/
 def deliveredAt (inp : RunInput) (nTasks : Nat) (tr : List Ev) (t : Name) : List Name :=
-  ((calcsAt inp tr nTasks (inp.calcDep t)).filter (finishedIn tr)).flatMap fun c =>
-    (inp.calcRes c).tasks ++ (inp.calcRes c).files
+  (calcsRun inp nTasks tr t).flatMap fun c => (resAt inp tr c).tasks ++ (resAt inp tr c).files
 
 /-- the dependency edges of `t` in the closure graph of this run: task_dep, calc_dep (static and delivered), what
-    finished calc_deps delivered, and — only when `select_task` chose `t` for execution — its setup-tasks -/
+    calc_deps delivered — the executed / up-to-date ones and those that failed after they were started —, and — only
+    when `select_task` chose `t` for execution — its setup-tasks -/
 def edgesAt (inp : RunInput) (nTasks : Nat) (tr : List Ev) (t : Name) : List Name :=
-  inp.taskDep t ++ calcsAt inp tr nTasks (inp.calcDep t) ++ deliveredAt inp nTasks tr t ++
+  inp.taskDep t ++ calcsRun inp nTasks tr t ++ deliveredAt inp nTasks tr t ++
+    (if ranFirst inp nTasks tr t then inp.setup t else [])
+
+/-- the graph of the earlier rounds, which counted the deliveries of executed / up-to-date calc_deps only (kept for the
+    statement "a cycle that exists ONLY through a failed delivery", `Props/C09.lean`) -/
+def edgesAtGood (inp : RunInput) (nTasks : Nat) (tr : List Ev) (t : Name) : List Name :=
+  inp.taskDep t ++ calcsAt inp tr nTasks (inp.calcDep t) ++
+    (((calcsAt inp tr nTasks (inp.calcDep t)).filter (finishedIn tr)).flatMap fun c =>
+      (inp.calcRes c).tasks ++ (inp.calcRes c).files) ++
     (if ranFirst inp nTasks tr t then inp.setup t else [])
 
 /-- close `acc` under `succ`, `fuel` rounds -/
@@ -29,13 +43,45 @@ def reachIterC09 (succ : Name → List Name) : Nat → List Name → List Name
   | 0, acc => acc
   | fuel + 1, acc => reachIterC09 succ fuel (addNew acc (acc.flatMap succ))
 
+/-- `t` lies on a dependency cycle of the graph `succ`: it is reached from its own successors (work-list search, every
+    task reached is expanded once; the fuel suffices when the task names are indices below `nTasks`) -/
+def onCycleOf (succ : Name → List Name) (nTasks : Nat) (t : Name) : Bool :=
+  t ∈ closureGo succ (nTasks + (succ t).length + 1) (addNew [] (succ t)) (addNew [] (succ t))
+
+/-- the round-based search of the earlier waves (`nTasks` rounds over the whole set: degree 4 in the number of tasks) -/
+def onCycleSlow (succ : Name → List Name) (nTasks : Nat) (t : Name) : Bool :=
+  t ∈ reachIterC09 succ nTasks (addNew [] (succ t))
+
 /-- `t` lies on a dependency cycle of the closure graph -/
 def onCycle (inp : RunInput) (nTasks : Nat) (tr : List Ev) (t : Name) : Bool :=
-  t ∈ reachIterC09 (edgesAt inp nTasks tr) nTasks (addNew [] (edgesAt inp nTasks tr t))
+  onCycleOf (edgesAt inp nTasks tr) nTasks t
+
+/-- the closure of the selection under `edgesAt` (work-list: every member is expanded once) -/
+def closureC09 (inp : RunInput) (nTasks : Nat) (tr : List Ev) : List Name :=
+  closureGo (edgesAt inp nTasks tr) (nTasks + inp.sel.length + 1) (addNew [] inp.sel) (addNew [] inp.sel)
 
 /-- the members of the closure of the selection that lie on a cycle -/
 def cycleTasks (inp : RunInput) (nTasks : Nat) (tr : List Ev) : List Name :=
-  (closureOf inp nTasks tr).filter (onCycle inp nTasks tr)
+  (closureC09 inp nTasks tr).filter (onCycle inp nTasks tr)
+
+/-- the same over the graph without the deliveries of failed calc_deps -/
+def cycleTasksGood (inp : RunInput) (nTasks : Nat) (tr : List Ev) : List Name :=
+  (closureGo (edgesAtGood inp nTasks tr) (nTasks + inp.sel.length + 1) (addNew [] inp.sel) (addNew [] inp.sel)).filter
+    (onCycleOf (edgesAtGood inp nTasks tr) nTasks)
+
+/-! ### the same cycle search over a table of the edges (what the driver runs: `edgesAt` is computed once per task) -/
+
+def edgeTable (succ : Name → List Name) (n : Nat) : Array (List Name) := Array.ofFn (n := n) fun i => succ i.val
+
+def lookupSucc (tbl : Array (List Name)) (succ : Name → List Name) (x : Name) : List Name :=
+  if h : x < tbl.size then tbl[x] else succ x
+
+/-- `cycleTasks` with the edges of the tasks `0 … nTasks-1` tabulated (equal to it: `Proofs/C09Cycle.lean`
+    `cycleTasksFast_eq`) -/
+def cycleTasksFast (inp : RunInput) (nTasks : Nat) (tr : List Ev) : List Name :=
+  let tbl := edgeTable (edgesAt inp nTasks tr) nTasks
+  (closureGo (lookupSucc tbl (edgesAt inp nTasks tr)) (nTasks + inp.sel.length + 1) (addNew [] inp.sel)
+    (addNew [] inp.sel)).filter (onCycleOf (lookupSucc tbl (edgesAt inp nTasks tr)) nTasks)
 
 /-! ### observables of one run and the four clauses of C09 -/
 
@@ -63,21 +109,34 @@ def startedIn (tr : List Ev) (t : Name) : Bool :=
 /-- clause 1: the run terminates -/
 def monC09Terminates (o : C09Obs) : Bool := !o.hung
 
+/-- clause 2 given the tasks found on a cycle -/
+def monC09DiagnosedOn (cyc : List Name) (inp : RunInput) (tr : List Ev) (o : C09Obs) : Bool :=
+  cyc.isEmpty || cutShort inp tr || (o.exit == 3 && o.errCyclic)
+
 /-- clause 2: a cycle in the closure is reported as a cyclic-dependency error with exit code 3 -/
 def monC09Diagnosed (inp : RunInput) (nTasks : Nat) (tr : List Ev) (o : C09Obs) : Bool :=
-  (cycleTasks inp nTasks tr).isEmpty || cutShort inp tr || (o.exit == 3 && o.errCyclic)
+  monC09DiagnosedOn (cycleTasks inp nTasks tr) inp tr o
+
+def monC09NoCycleTaskRunOn (cyc : List Name) (tr : List Ev) : Bool := cyc.all fun t => !startedIn tr t
 
 /-- clause 3: no task that lies on a cycle is ever executed -/
 def monC09NoCycleTaskRun (inp : RunInput) (nTasks : Nat) (tr : List Ev) : Bool :=
-  (cycleTasks inp nTasks tr).all fun t => !startedIn tr t
+  monC09NoCycleTaskRunOn (cycleTasks inp nTasks tr) tr
+
+def monC09NoFalseCycleOn (cyc : List Name) (o : C09Obs) : Bool :=
+  !cyc.isEmpty || (!o.errCyclic && !o.errWait && !o.hung)
 
 /-- clause 4: without a cycle no cycle error is raised and the run never waits with nothing executing -/
 def monC09NoFalseCycle (inp : RunInput) (nTasks : Nat) (tr : List Ev) (o : C09Obs) : Bool :=
-  !(cycleTasks inp nTasks tr).isEmpty || (!o.errCyclic && !o.errWait && !o.hung)
+  monC09NoFalseCycleOn (cycleTasks inp nTasks tr) o
 
 def monC09 (inp : RunInput) (nTasks : Nat) (tr : List Ev) (o : C09Obs) : Bool :=
   monC09Terminates o && monC09Diagnosed inp nTasks tr o && monC09NoCycleTaskRun inp nTasks tr &&
   monC09NoFalseCycle inp nTasks tr o
+
+/-- the four clauses over one shared list of cycle tasks (`monC09On (cycleTasks …) = monC09 …` by definition) -/
+def monC09On (cyc : List Name) (inp : RunInput) (tr : List Ev) (o : C09Obs) : Bool :=
+  monC09Terminates o && monC09DiagnosedOn cyc inp tr o && monC09NoCycleTaskRunOn cyc tr && monC09NoFalseCycleOn cyc o
 
 /-! ### the pinned dispatcher (before `fix: report cyclic dependencies not detected while creating nodes`) -/
 
